@@ -527,6 +527,29 @@ func genC05(r *Rng, tier string) []Case {
 					read(c.build())
 				}
 			}
+			// offsets that wrap around 2^64: 2^64-k for k up to and beyond the distance back to the file start
+			for ei := range base.entries {
+				l := base.entries[ei].locs[0][1]
+				for _, k := range []uint64{1, 8, 40, 60, 80, 100, 150, 200, 300, 500, 1000, 5000} {
+					for _, ln := range []uint64{l, k, k + 1, 2 * k, l + k} {
+						c := clone()
+						c.entries[ei].locs[0] = [2]uint64{^uint64(0) - k + 1, ln}
+						read(c.build())
+					}
+				}
+			}
+			// a valid response item parked in an unknown section BEFORE the responses section, reachable
+			// only through an offset that wraps (must be refused: it is outside the responses section)
+			{
+				decoy := respItem("200", [][2]string{{"x-decoy", "1"}}, []byte("decoy body"))
+				c := clone()
+				c.extra = []bbSection{{name: "decoy-sec", body: decoy}}
+				built := c.build()
+				_ = built
+				// distance from the start of responses back to the decoy = len(decoy)
+				c.entries[0].locs[0] = [2]uint64{^uint64(0) - uint64(len(decoy)) + 1, uint64(len(decoy))}
+				read(c.build())
+			}
 			// section declared lengths: index, responses, and an unknown section in between
 			idxLen := uint64(len(good)) - respLen // upper bound is enough for the edge table
 			for _, name := range []string{"index", "responses", "unknown-sec"} {
